@@ -1390,6 +1390,10 @@ fn id_menu(thorough: bool) -> Vec<Act> {
     // order hazards (lexicographic vs integer vs length-first order)
     m.push(Act::SetVariants(vec!["zaaaa", "aaaaz"]));
     m.push(Act::SetVariants(vec!["aaaaz", "bbbbbb", "zaaaa", "9aaa", "1zzz"]));
+    // lists as long as what a receiver already holds (3 and 5 here), with a non-adjacent repeat
+    m.push(Act::SetVariants(vec!["valencia", "1996", "fonipa"]));
+    m.push(Act::SetVariants(vec!["fonipa", "valencia", "fonipa"]));
+    m.push(Act::SetVariants(vec!["aaaaz", "bbbbbb", "aaaaz", "9aaa", "1zzz"]));
     m.push(Act::ClearVariants);
     // Clone::clone_from and mem::take are public mutations too (sources made of menu values)
     // (every source is a value of this menu or an initial state: no new states, new transitions)
